@@ -2,7 +2,7 @@
 from .. import cells, cfg, flow
 from ..cells import INF
 from ..facts import callee_path
-from .c07 import DATA_KINDS, EXC_KINDS, PDU, VALUE, find_op, is_len_of, is_value_discr, outcome, variant_index
+from .c07 import DATA_KINDS, EXC_KINDS, PDU, VALUE, find_op, is_len_of, is_len_term, is_value_discr, outcome, variant_index
 
 GETITER = "snmp::op::getiter::GetIter"
 
@@ -243,7 +243,7 @@ def _walk_cell(body, prov, pv, vv, pdu, n=None, inside=None, val=None):
     def ev(t):
         if t == ("discr", ("arg", 1)):
             return pv[pdu]
-        if n is not None and (is_len_of(t, "vars") or (t[0] == "call" and t[1] == "len" and flow.mentions(t[2][0], lambda s: s[0] == "f" and s[2] == "vars"))):
+        if n is not None and is_len_term(t, "vars"):
             return n
         if inside is not None and t[0] == "call" and (t[1] or "").endswith("GetIter::set_next_oid"):
             return 1 if inside else 0
